@@ -28,7 +28,7 @@
    The whole-run statements outside the fragment are explored by the direct strict-vs-lazy stream and both
    correspondence streams. *)
 From TSG Require Import Model.Strict Model.Lazy Model.Run Model.Stdlib Proofs.Captures Proofs.MonadFacts Proofs.K7
-  Proofs.SLExpr Proofs.StrictLazy Proofs.SLExample Proofs.SL2Expr Proofs.SL2Stmt Proofs.SL2Whole Proofs.SL2Example.
+  Proofs.SLExpr Proofs.StrictLazy Proofs.SLExample Proofs.SL2Expr Proofs.SL2Stmt Proofs.SL2Whole Proofs.SL2Adequate Proofs.SL2Example.
 
 (* `$k` has the same value in both modes; out of range is UndefinedRegexCapture in both *)
 Theorem lazy_regex_capture_partial : forall t fl glob call fuel fuel' (le : lenv) (ll : llenv) i s p sl pl,
@@ -119,6 +119,18 @@ Theorem strict_lazy_same_graph_scoped_partial :
     | Err _ | Panic _ => False
     end.
 Proof. exact @strict_lazy_same_graph_scoped_lemma. Qed.
+
+(* adequacy on the fragment with scoped variables: some lazy fuel suffices; from that fuel on the lazy run is Ok and
+   returns exactly the strict graph *)
+Theorem strict_lazy_adequate_scoped_partial :
+  forall {rx : Type} t fl supplied (regexes : list rx) find call (okfn : ident -> Prop) (purev : ident -> bool) fuel ms g0 s p,
+  (forall f, okfn f -> pure_fn call f) ->
+  f_inherited fl = [] ->
+  file_ok2 okfn purev fl (f_stanzas fl) ms ->
+  run_strict t fl config0 supplied None regexes find call fuel ms g0 = Ok (s, p) ->
+  exists lfuel0, forall lfuel, (lfuel0 <= lfuel)%nat ->
+    exists ls pl, run_lazy t fl config0 supplied None regexes find call lfuel (lmatches_of ms) g0 = Ok (ls, pl) /\ l_graph ls = s_graph s.
+Proof. exact @strict_lazy_adequate_scoped_lemma. Qed.
 
 (* the hypotheses hold of a concrete program in which the second stanza reads the scoped variable `n` that the
    first stanza defined on other matches (also: a scoped read whose scope is a scoped read, a scoped definition
